@@ -111,6 +111,21 @@ def gen_site(rng, size=None, redirects=True, inline=True, offsite=True, deep=Fal
             s.pages[p] = {'kind': k}
     for im in imgs:
         s.pages[im] = {'kind': 'leaf', 'ctype': 'image/png'}
+    # "no fetch fails": redirect chains must end in a document (no cycles, at most 3 hops)
+    def target_path(loc):
+        u = urllib.parse.urlsplit(urllib.parse.urljoin('http://a.test/', loc))
+        import posixpath
+        return posixpath.normpath(u.path) if u.path != '/' else '/'
+    for p in list(s.pages):
+        seen, cur, hops = {p}, p, 0
+        while s.pages.get(cur, {}).get('kind') == 'redirect':
+            nxt = target_path(s.pages[cur]['location'])
+            hops += 1
+            if nxt in seen or hops > 3:
+                s.pages[cur] = {'kind': 'html', 'links': []}
+                break
+            seen.add(nxt)
+            cur = nxt
     # make sure the root links somewhere
     if not s.pages['/']['links'] and len(paths) > 1:
         s.pages['/']['links'].append((paths[1], False))
